@@ -37,12 +37,17 @@ const (
 	KTTL0
 	KWithOPT
 	KWeird
+	// KErr: the upstream handler returns an error.  KSilent: it returns
+	// without writing anything.  Both are produced by the harness's upstream
+	// wrapper, not by Answer.
+	KErr
+	KSilent
 	KKinds
 )
 
 // KindNames are printable names of the kinds.
 var KindNames = [...]string{"A", "A-mixed", "CNAME", "NODATA+SOA", "NODATA-noSOA", "NXDOMAIN+SOA", "NXDOMAIN-empty",
-	"SERVFAIL", "SERVFAIL-longTTL", "REFUSED", "truncated", "TTL0", "with-OPT", "weird-answer"}
+	"SERVFAIL", "SERVFAIL-longTTL", "REFUSED", "truncated", "TTL0", "with-OPT", "weird-answer", "upstream-error", "upstream-silent"}
 
 // TTLs is the TTL alphabet.
 var TTLs = [...]uint32{1, 2, 3, 5, 30, 45, 300}
@@ -67,6 +72,16 @@ func Name(k Kind, ttlIdx int, zone string) string {
 
 // KindOf parses a generated name.
 func KindOf(name string) (k Kind, ttl uint32) {
+	// Minimal names: the root and one-letter top-level names.
+	switch strings.ToLower(name) {
+	case ".":
+		return KA, 5
+	case "a.":
+		return KAMixed, 5
+	case "z.":
+		return KNX, 5
+	}
+
 	var ki, ti int
 	_, err := fmt.Sscanf(strings.ToLower(name), "k%dt%d.", &ki, &ti)
 	if err != nil {
@@ -75,6 +90,10 @@ func KindOf(name string) (k Kind, ttl uint32) {
 
 	return Kind(ki), TTLs[ti]
 }
+
+// MinimalNames are names that do not follow the k<kind>t<ttl> scheme; see
+// KindOf.
+var MinimalNames = []string{".", "a.", "z."}
 
 // IsDO reports the DO bit of m.
 func IsDO(m *dns.Msg) bool {
